@@ -66,6 +66,8 @@ def replay_mode(prop, path):
         rep = json.load(f)
     backend = rep.get("backend", "hist-idn2")
     b = backend.replace("hist-", "")
+    flags = b.endswith("-flags")
+    b = b.replace("-flags", "")
     extra = b.endswith("-extra")
     b = b.replace("-extra", "")
     if rep.get("lockstep"):
@@ -81,7 +83,7 @@ def replay_mode(prop, path):
             return 1
         print("replay: backends agree")
         return 0
-    exe, _ = build.build_hist(b, extra=extra)
+    exe, _ = build.build_hist(b, extra=extra, flags=flags)
     r = exec_plans(exe, rep["plans"], log=True)
     for l in r["logs"]:
         print("  " + l)
@@ -164,6 +166,10 @@ def c13(tier, seed):
     xq = tier == "quick"
     batches.append(Batch("extra-nofault", exe2, "C13", "nofault", seed + 1, 3000 if xq else 10**8, 60 if xq else 120, W, samples=False).run())
     batches.append(Batch("extra-fault", exe2, "C13", "fault", seed + 1, 3000 if xq else 10**8, 60 if xq else 120, W, samples=False).run())
+    # the optional grammar flags compile other code into the scanners: same histories on that build
+    exe3, _ = build.build_hist("idn2", flags=True)
+    build_info["flags_variant"] = "build with -DRFC6531_FOLLOW_RFC5322 -DRFC6531_FOLLOW_RFC20 -DLABELS_ALLOW_UNDERSCORE also run"
+    batches.append(Batch("flags-nofault", exe3, "C13", "nofault", seed + 4, 4000 if xq else 10**8, 60 if xq else 120, W, samples=False).run())
     violations, known, nondet = handle_candidates("C13", batches)
     rule = ("plan = seeded history of 1-200 ops {SET_RFC, SET_TLD, SET_ALLOW, SETUP, IS_EMAIL, ERRSTR, READ_RESULT, FREE_INIT} over 1-3 eav_t "
             "objects and a per-plan address pool (swarm: op mix, pool size, fault rate drawn per plan), plus the complete enumeration of all op sequences up to length 4 (thorough: 5) "
